@@ -47,6 +47,8 @@ def import_adaptix():
     """Import adaptix from $VERIF_REPO/src (default /repo/src), i.e. always the current working tree."""
     if SRC not in sys.path[:1]:
         sys.path.insert(0, SRC)
+    from .sched import install_lock_seam
+    install_lock_seam()        # before adaptix is imported: every lock adaptix creates is simulated from the start
     import adaptix
 
     got = os.path.dirname(os.path.abspath(adaptix.__file__)) + os.sep
